@@ -35,7 +35,7 @@ impl Validation {
     pub fn without_expiry(self) -> Self {
         Self {
             validate_exp: false,
-            ..Self::default()
+            ..self
         }
     }
 
